@@ -39,7 +39,7 @@ func processHints(query sql.ISelect, hints *storage.SelectHints) sql.ISelect {
 	instantVectors := map[string]bool{
 		"abs": true, "absent": true, "ceil": true, "exp": true, "floor": true,
 		"ln": true, "log2": true, "log10": true, "round": true, "scalar": true, "sgn": true, "sort": true, "sqrt": true,
-		"timestamp": true, "atan": true, "cos": true, "cosh": true, "sin": true, "sinh": true, "tan": true, "tanh": true,
+		"atan": true, "cos": true, "cosh": true, "sin": true, "sinh": true, "tan": true, "tanh": true,
 		"deg": true, "rad": true,
 	}
 	rangeVectors := map[string]bool{
@@ -48,6 +48,7 @@ func processHints(query sql.ISelect, hints *storage.SelectHints) sql.ISelect {
 		"count_over_time": true, "stddev_over_time": true, "stdvar_over_time": true, "last_over_time": true,
 		"present_over_time": true, "delta": true, "increase": true, "avg_over_time": true,
 	}
+	// not "timestamp": it reads the time of the sample, which the per-step aggregation below moves to the end of the step
 	if instantVectors[hints.Func] || hints.Func == "" {
 		withQuery := sql.NewWith(query, "spls")
 		query = sql.NewSelect().With(withQuery).Select(
